@@ -220,6 +220,7 @@ func (pm *profileMerger) sampleKey(sample *Sample) sampleKey {
 	}
 	putNumber(0) // Delimiter
 
+	putNumber(uint64(len(sample.Label))) // Entry count: separates the label sections
 	for _, l := range sortedKeys1(sample.Label) {
 		putDelimitedString(l)
 		values := sample.Label[l]
@@ -229,6 +230,7 @@ func (pm *profileMerger) sampleKey(sample *Sample) sampleKey {
 		}
 	}
 
+	putNumber(uint64(len(sample.NumLabel)))
 	for _, l := range sortedKeys2(sample.NumLabel) {
 		putDelimitedString(l)
 		values := sample.NumLabel[l]
